@@ -297,34 +297,19 @@ def r4_declaration_order(res, facts):
                         r.violation(site, 'leaves %s, required %s (higher match score first, the later declaration first among equals)' % (vec.items, want), common.file_line(a))
                     else:
                         r.instances += 1
-    # postConstruction: imported declarations are appended
-    pc = facts.asts('Stylesheet::postConstruction')[0]
-    writes = []
-    for c in calls(pc['body']):
-        if c.get('k') == 'MCall' and c.get('n') in ('insert', 'push_back', 'erase', 'swap', 'assign', 'clear', 'resize') and pp(strip_casts(c.get('obj'))) == 'm_whitespaceElements':
-            writes.append(c)
-    if not writes:
-        r.violation('postConstruction: imported declarations', 'the declarations of the imports are not merged into m_whitespaceElements at all', common.file_line(pc))
-    for c in writes:
-        site = 'postConstruction: m_whitespaceElements.%s' % c['n']
-        args = [pp(strip_casts(x)) for x in c.get('args', [])]
-        if c['n'] == 'insert' and len(args) == 3 and args[0] == 'm_whitespaceElements.end()' and args[1].endswith('m_whitespaceElements.begin()') and args[2].endswith('m_whitespaceElements.end()'):
-            r.ok(site, 'appends the import\'s declarations: (%s)' % ', '.join(args)[:90])
+    # postConstruction: imported declarations are appended, in import order (interpreted: the machinery of C01-R17)
+    from . import c01_keys
+    for site, fn, out in c01_keys.outcomes(facts):
+        site = 'postConstruction: strip / preserve declarations ' + site
+        if out[0] == 'fault':
+            r.violation('postConstruction: imported declarations', '%s: %s' % (site, out[1]), common.file_line(fn)); continue
+        gotws, all_ws = out[3], out[4]
+        if list(map(str, gotws)) == list(map(str, all_ws)):
+            r.ok(site, 'own declarations first, then those of the imports from the highest precedence down')
         else:
-            r.violation(site, 'imported declarations are merged with %s(%s): only appending keeps import precedence ahead of the name test\'s priority — a more specific declaration of an '
-                        'imported stylesheet would override a less specific one of the importing stylesheet' % (c['n'], ', '.join(args)[:80]), common.file_line(pc, c))
-    # the loop that appends runs over m_imports from begin() to end()
-    loops = [x for x in walk(pc['body']) if x.get('k') in ('While', 'For') and any(cc is w for w in writes for cc in walk(x))]
-    ok_dir = False
-    for lp in loops:
-        its = [v for x in walk(pc['body']) if x.get('k') == 'Decl' for v in x.get('vars', []) if v.get('init') is not None and 'm_imports.begin()' in pp(v['init'])]
-        if its and any(x.get('k') == 'Un' and x.get('op') == '++' for x in walk(lp['body'])):
-            ok_dir = True
-    if writes:
-        if ok_dir:
-            r.ok('postConstruction: imports visited from m_imports.begin() (highest precedence) upwards')
-        else:
-            r.violation('postConstruction: import order', 'the imports are not visited from m_imports.begin() with ++', common.file_line(pc))
+            r.violation('postConstruction: imported declarations', '%s: the list is %s afterwards; required %s - the stylesheet\'s own declarations (already sorted by match score) followed by those '
+                        'of the imports in the order of m_imports (highest precedence first): only appending keeps import precedence ahead of the name test\'s priority' %
+                        (site, list(map(str, gotws)), list(map(str, all_ws))), common.file_line(fn))
     # lookup takes the first match
     for b in facts.asts('StylesheetRoot::internalShouldStripSourceNode', must=False):
         rets = [x for x in walk(b['body']) if x.get('k') == 'Return' and 'eStrip' in pp(x.get('e'))]
